@@ -1,6 +1,7 @@
 package engine
 
 import (
+	"go/types"
 	"encoding/json"
 	"fmt"
 	"os"
@@ -143,6 +144,14 @@ func (e *Engine) RunContracts(pc *PropertyCheck, timeout time.Duration, maxPaths
 	for _, ct := range e.Specs.Contracts {
 		if ct.Trusted && !ct.HavocOnly && contractServes(ct, pc.ID) {
 			pc.Trusted = append(pc.Trusted, ct.PkgPath+" "+ct.Key)
+		}
+		// structural clauses of contracts that are not body-checked are still checked
+		if ct.Trusted && ct.Fn != nil {
+			for _, cl := range ct.Callers {
+				if clauseServes(cl, pc.ID) {
+					e.callersObligation(pc, ct.Fn, cl)
+				}
+			}
 		}
 	}
 	// interface contracts that are not derived/trusted are checked against every elys
@@ -308,7 +317,11 @@ func (e *Engine) RunContracts(pc *PropertyCheck, timeout time.Duration, maxPaths
 		for _, ct := range e.Specs.Contracts {
 			if ct.FrameOnly && ct.PkgPath+" "+ct.Key == k {
 				e.frameOnlyObligation(pc, ct)
+				e.heapFrameScan(pc, ct)
 				continue
+			}
+			if ct.HavocOnly && ct.PkgPath+" "+ct.Key == k {
+				e.heapFrameScan(pc, ct)
 			}
 			if ct.Trusted && !ct.HavocOnly && ct.PkgPath+" "+ct.Key == k {
 				why := "trusted contract used"
@@ -790,6 +803,127 @@ func (e *Engine) frameOnlyObligation(pc *PropertyCheck, ct *sym.Contract) {
 		o.Detail = "the function may write " + fmt.Sprint(missing) + " (call-graph inference), which its modifies clause does not list"
 	}
 	pc.Outcomes = append(pc.Outcomes, o)
+}
+
+// heapFrameScan: a contract that is not checked against the body (frame-only, havoc-only) must
+// list `*p` for every pointer parameter p through which the function could write: p (or an
+// address derived from it) is the target of a store or is handed to another call. Sufficient,
+// conservative, intra-procedural.
+func (e *Engine) heapFrameScan(pc *PropertyCheck, ct *sym.Contract) {
+	fn := ct.Fn
+	if fn == nil || len(fn.Blocks) == 0 {
+		return
+	}
+	declared := map[string]bool{}
+	for _, m := range ct.Modifies {
+		m = strings.TrimSpace(m)
+		if i := strings.Index(m, " if "); i >= 0 {
+			m = m[:i]
+		}
+		if strings.HasPrefix(m, "*") {
+			n := strings.TrimPrefix(m, "*")
+			if j := strings.Index(n, "."); j >= 0 {
+				continue // a field-level item does not cover the whole object
+			}
+			declared[n] = true
+		}
+	}
+	var missing []string
+	for i, p := range fn.Params {
+		pt, ok := p.Type().Underlying().(*types.Pointer)
+		if !ok {
+			continue
+		}
+		if _, isStruct := pt.Elem().Underlying().(*types.Struct); !isStruct {
+			continue
+		}
+		if n, ok := pt.Elem().(*types.Named); ok {
+			switch n.Obj().Name() {
+			case "Keeper", "msgServer", "Querier", "AppModule":
+				continue
+			}
+		}
+		name := p.Name()
+		if name == "" {
+			name = fmt.Sprintf("arg%d", i)
+		}
+		if declared[name] {
+			continue
+		}
+		if mayWriteThrough(fn, p) {
+			missing = append(missing, "*"+name)
+		}
+	}
+	name := shortPath(ct.PkgPath) + "." + ct.Key + "/frame-heap-listed"
+	o := &Outcome{Name: name, Func: shortPath(ct.PkgPath) + "." + ct.Key, Status: "discharged", Kind: "scan", Detail: "every pointer parameter the body could write through is listed in the modifies clause"}
+	if len(missing) > 0 {
+		o.Status = "failed"
+		o.Detail = "the body may write through " + strings.Join(missing, ", ") + " (stored to, or handed to a call), which the modifies clause of this unchecked contract does not list"
+	}
+	pc.Outcomes = append(pc.Outcomes, o)
+}
+
+// mayWriteThrough: some address derived from p is stored to or escapes into a call.
+func mayWriteThrough(fn *ssa.Function, p *ssa.Parameter) bool {
+	derived := map[ssa.Value]bool{p: true}
+	changed := true
+	for changed {
+		changed = false
+		for _, b := range fn.Blocks {
+			for _, ins := range b.Instrs {
+				var src ssa.Value
+				switch x := ins.(type) {
+				case *ssa.FieldAddr:
+					src = x.X
+				case *ssa.IndexAddr:
+					src = x.X
+				case *ssa.Phi:
+					for _, e := range x.Edges {
+						if derived[e] {
+							src = e
+						}
+					}
+				case *ssa.ChangeType:
+					src = x.X
+				case *ssa.MakeInterface:
+					src = x.X
+				}
+				if src != nil && derived[src] {
+					if v, ok := ins.(ssa.Value); ok && !derived[v] {
+						derived[v] = true
+						changed = true
+					}
+				}
+			}
+		}
+	}
+	for _, b := range fn.Blocks {
+		for _, ins := range b.Instrs {
+			switch x := ins.(type) {
+			case *ssa.Store:
+				if derived[x.Addr] {
+					return true
+				}
+			case ssa.CallInstruction:
+				cc := x.Common()
+				if cc.IsInvoke() && derived[cc.Value] {
+					return true
+				}
+				for _, a := range cc.Args {
+					if derived[a] {
+						// a pointer-receiver method or function taking the pointer
+						return true
+					}
+				}
+			}
+		}
+	}
+	for _, a := range fn.AnonFuncs {
+		for _, fv := range a.FreeVars {
+			_ = fv
+		}
+	}
+	return false
 }
 
 // callersObligation: the static callers of fn (in the SSA of all elys packages, tests and
